@@ -58,7 +58,8 @@ Record env := mkEnv {
   e_context : bytes;                   (* _dbus_auth_set_context *)
   e_keyring_ok : bool;                 (* _dbus_keyring_new_for_credentials succeeds *)
   e_best_key : N -> option N;          (* k-th _dbus_keyring_get_best_key; None = -1 *)
-  e_cookie : N -> bytes;               (* _dbus_keyring_get_hex_key: hex secret of a key id, [] if unknown *)
+  e_cookie : N -> N -> bytes;          (* _dbus_keyring_get_hex_key on the keyring as the k-th get_best_key left it:
+                                          hex secret of a key id, [] if unknown *)
   e_challenge : N -> option bytes      (* k-th _dbus_generate_random_bytes (N_CHALLENGE_BYTES); None = failed *)
 }.
 
@@ -319,8 +320,8 @@ Definition sha1_first (e : env) (a : core) (data : bytes) : core * list resp :=
     end.
 
 (* sha1_compute_hash: [] when the cookie id is unknown *)
-Definition sha1_compute_hash (e : env) (id : N) (server_challenge client_challenge : bytes) : bytes :=
-  let cookie := e_cookie e id in
+Definition sha1_compute_hash (e : env) (k : N) (id : N) (server_challenge client_challenge : bytes) : bytes :=
+  let cookie := e_cookie e k id in
   if is_empty cookie then []
   else hex_encode (sha1 (server_challenge ++ colon ++ client_challenge ++ colon ++ cookie)).
 
@@ -336,7 +337,7 @@ Definition sha1_second (e : env) (a : core) (id : N) (data : bytes) : core * lis
         let client_hash := skipn (N.to_nat j) data in
         if is_empty client_challenge || is_empty client_hash then send_rejected a
         else
-          let correct := sha1_compute_hash e id (a_challenge a) client_challenge in
+          let correct := sha1_compute_hash e (a_nchal a - 1) id (a_challenge a) client_challenge in
           if is_empty correct then send_rejected a
           else if negb (bytes_eqb client_hash correct) then send_rejected a
           else
